@@ -21,11 +21,15 @@ def setup(ctx: common.Ctx, prop: str):
                         'hand-written tree classes (NumberAddExpr, NumberMulExpr, Repeated, File/Transaction/Custom overrides) are covered by correspondence and monitors only',
                         'lark lexer/parser and CPython object semantics are not modelled']
     from translate import gen
-    ok, msg = gen.main(write=True)
-    if not ok:
-        ctx.fail('tie', 'translator', f'translate/gen.py cannot read models/generated: {msg}')
-    ctx.notes.append(f'translator: {msg}')
-    ctx.require_coq([f'properties/{prop}'], extra_targets=['GeneratedWf', 'TreeRun', 'TreeDefs', 'TreeWF'])
+
+    def translate():
+        # inside the build lock: Generated.v is rewritten (only if its content changed) and built in one step
+        ok, msg = gen.main(write=True)
+        if not ok:
+            ctx.fail('tie', 'translator', f'translate/gen.py cannot read models/generated: {msg}')
+        ctx.notes.append(f'translator: {msg}')
+
+    ctx.require_coq([f'properties/{prop}'], extra_targets=['GeneratedWf', 'TreeRun', 'TreeDefs', 'TreeWF'], pre=translate)
 
 
 def correspondence(ctx: common.Ctx, prop: str):
